@@ -33,7 +33,7 @@ Qed.
 Print Assumptions c15_sync_mirror.
 
 (* and while the primary can be read, an un-faulted synchronisation does return nil *)
-Theorem c15_sync_completes : forall s, pmode s <> Dead -> snd (step s (Sync None)) = OSync true.
+Theorem c15_sync_completes : forall s, writable s = true -> snd (step s (Sync None)) = OSync true.
 Proof. exact sync_completes. Qed.
 Print Assumptions c15_sync_completes.
 
@@ -58,9 +58,12 @@ Theorem c15_atomic : forall s f,
 Proof. intros s f. split; [apply sync_atomic|apply sync_keeps_primary]. Qed.
 Print Assumptions c15_atomic.
 
-(* While the primary does not answer reads, loads and signed-record reads are answered from
+(* While the primary does not answer reads — in WHICHEVER way: the query hangs past the
+   deadline (RHang), the statement cannot even be prepared (RPrepare: connection refused, closed
+   pool), the query fails (RQuery), the row fetch fails (RScan); with or without writes still
+   going through (w) — profile loads, the user list and signed-record reads are answered from
    the cache, and say so. *)
-Theorem c15_outage_reads : forall s u t, pmode s <> Up ->
+Theorem c15_outage_reads : forall s k w u t, pmode s = Out k w ->
   step s (Load u) = (s, match aget ukey_eqb u (profiles (cache s)) with
                         | Some b => OLoad true true b
                         | None => OLoad false true 0%N
@@ -68,28 +71,50 @@ Theorem c15_outage_reads : forall s u t, pmode s <> Up ->
   step s (GetS u t) = (s, match aget skey_eqb (u, t) (signed (cache s)) with
                           | Some r => if now s <? sr_exp r then OSigned true (sr_data r) else OSigned false 0%N
                           | None => OSigned false 0%N
-                          end).
-Proof. intros s u t H. split; [apply outage_reads|apply outage_reads_signed]; exact H. Qed.
+                          end) /\
+  step s Users = (s, OUsers true (map fst (profiles (cache s)))).
+Proof.
+  intros s k w u t H. assert (pmode s <> Up) as H' by (rewrite H; discriminate).
+  split; [apply outage_reads|split; [apply outage_reads_signed|apply outage_reads_users]]; exact H'.
+Qed.
 Print Assumptions c15_outage_reads.
 
-(* ... and no handler stores a profile: the cache is untouched, no user's profile in the primary
-   gets new content (the only possible change is the admin's delete, which loads nothing, and
-   only while writes still go through), mutating handlers answer with their refusal, and with
-   the primary dead the primary is untouched altogether. *)
-Theorem c15_outage_writes : forall s h u b, pmode s <> Up ->
+(* ... and no handler stores a profile, in every kind of outage: the cache is untouched, no user's
+   profile in the primary gets new content (the only possible change is the admin's delete, which
+   loads nothing, and only while writes still go through), mutating handlers answer with their
+   refusal, second-factor checks and readers are SERVED (a second-factor check of a user the cache
+   does not know is refused), and when writes do not go through the primary is untouched
+   altogether. *)
+Theorem c15_outage_writes : forall s k w h u b, pmode s = Out k w ->
   let '(s', o) := step s (Handler h u b) in
   cache s' = cache s /\ signed (primary s') = signed (primary s) /\
   (forall u', aget ukey_eqb u' (profiles (primary s')) = aget ukey_eqb u' (profiles (primary s)) \/
               (h = HDelete /\ u' = u /\ aget ukey_eqb u' (profiles (primary s')) = None)) /\
   (h = HMutate -> o = ORefused) /\
-  (pmode s = Dead -> primary s' = primary s).
-Proof. exact outage_writes. Qed.
+  (h = HAuthSave \/ h = HRead ->
+     o = OServed \/ (h = HAuthSave /\ o = ORefused /\ aget ukey_eqb u (profiles (cache s)) = None)) /\
+  (w = false -> primary s' = primary s).
+Proof.
+  intros s k w h u b H. assert (pmode s <> Up) as H' by (rewrite H; discriminate).
+  pose proof (outage_writes s h u b H') as P. destruct (step s (Handler h u b)) as [s' o].
+  destruct P as (A & B & C & D & E & F). repeat split; try assumption.
+  intro W. apply F. unfold writable. rewrite H. exact W.
+Qed.
 Print Assumptions c15_outage_writes.
 
-Theorem c15_dead_frozen : forall s o, pmode s = Dead -> (forall m, o <> SetMode m) ->
+Theorem c15_dead_frozen : forall s o, writable s = false -> (forall m, o <> SetMode m) ->
   primary (fst (step s o)) = primary s /\ (o <> Cleanup -> cache (fst (step s o)) = cache s).
 Proof. exact dead_frozen. Qed.
 Print Assumptions c15_dead_frozen.
+
+(* a read of a signed record never returns an expired row — whichever store answers, whatever the
+   state (any history, purged or not, tampered or not) *)
+Theorem c15_reads_unexpired : forall s u t d,
+  snd (step s (GetS u t)) = OSigned true d ->
+  exists r, aget skey_eqb (u, t) (signed (if mode_eqb (pmode s) Up then primary s else cache s)) = Some r /\
+            sr_data r = d /\ now s < sr_exp r.
+Proof. exact reads_unexpired. Qed.
+Print Assumptions c15_reads_unexpired.
 
 (* the periodic purge of expired signed rows changes no answer of GetSigned, and afterwards the
    cache holds no row that expired before now *)
@@ -145,6 +170,19 @@ Theorem c15_old_stale_writeback_refuted :
 Proof. exact old_stale_writeback_refuted. Qed.
 Print Assumptions c15_old_stale_writeback_refuted.
 
+(* before the repair of the read path (fix: a failed read of the primary no longer answers the
+   caller) a primary that failed at query or row-fetch time made every read fail, and the
+   second-factor check with it, although the cache held everything; the repaired machine answers
+   from the cache *)
+Theorem c15_old_outage_reported_refuted : forall k w, k = RQuery \/ k = RScan ->
+  let s := fst (run init (old_outage_history k w)) in
+  snd (step_reporting s (Load 1%N)) = OErr /\ snd (step_reporting s (GetS 1%N 1%N)) = OErr /\
+  snd (step_reporting s Users) = OErr /\ snd (step_reporting s (Handler HAuthSave 1%N 12%N)) = OErr /\
+  snd (step s (Load 1%N)) = OLoad true true 10%N /\ snd (step s (GetS 1%N 1%N)) = OSigned true 5%N /\
+  snd (step s Users) = OUsers true [1%N] /\ snd (step s (Handler HAuthSave 1%N 12%N)) = OServed.
+Proof. exact old_outage_reported_refuted. Qed.
+Print Assumptions c15_old_outage_reported_refuted.
+
 (* ---- non-vacuity *)
 Local Open Scope N_scope.
 
@@ -168,3 +206,17 @@ Example c15_fault :
   snd (step s (Sync (Some 14%nat))) = OSync true /\
   same_db (cache (fst (step s (Sync (Some 14%nat))))) (primary s) = true.
 Proof. vm_compute. repeat split; reflexivity. Qed.
+
+(* every kind of outage: the reads come from the cache, the mutation is refused, the second-factor
+   check is served and stores nothing *)
+Example c15_outage_kinds :
+  forallb (fun m =>
+    let s := fst (run init [Save 1 10; Sync None; Save 1 11; SetMode m]) in
+    out_eqb (snd (step s (Load 1))) (OLoad true true 10) &&
+    out_eqb (snd (step s Users)) (OUsers true [1]) &&
+    out_eqb (snd (step s (Handler HMutate 1 12))) ORefused &&
+    out_eqb (snd (step s (Handler HAuthSave 1 12))) OServed &&
+    same_db (primary (fst (step s (Handler HAuthSave 1 12)))) (primary s))
+  [Out RHang true; Out RHang false; Out RPrepare true; Out RPrepare false;
+   Out RQuery true; Out RQuery false; Out RScan true; Out RScan false] = true.
+Proof. vm_compute. reflexivity. Qed.
